@@ -664,7 +664,14 @@ def check_feedback(ctx, use_driver):
         try:
             with spa.Network(seed=rng.randrange(2 ** 30)) as model:
                 model.config[nengo.Ensemble].neuron_type = nengo.Direct()
-                st = spa.State(d, subdimensions=s, represent_cc_identity=cc, feedback=f, feedback_synapse=tau)
+                if i % 3 == 2:
+                    # the same parameters given through the network's configuration instead of the constructor
+                    model.config[spa.State].feedback = f
+                    model.config[spa.State].feedback_synapse = tau
+                    st = spa.State(d, subdimensions=s, represent_cc_identity=cc)
+                    case["given_by"] = "config"
+                else:
+                    st = spa.State(d, subdimensions=s, represent_cc_identity=cc, feedback=f, feedback_synapse=tau)
                 nengo.Connection(nengo.Node(nengo.processes.PresentInput(U, DT)), st.input, synapse=None)
                 p = nengo.Probe(st.output, synapse=None)
             fb = [c for c in st.all_connections if c.pre_obj is st.output and c.post_obj is st.input]
